@@ -277,8 +277,42 @@ def owners(clause: str) -> set:
     return own or {'C01', 'C02', 'C03'}
 
 
+def pair_trace(tid, d: int, v: int, h: Sequence[int], sd: int) -> List[Dict[str, Any]]:
+    """Two auctions alive at the same time (the two tables of a match, a
+    server and its clients in one process): A follows h, B follows h up to a
+    point and then goes its own legal way; the calls are taken alternately.
+    Each object is validated as its own trace: objects must not share state."""
+    r = rng('pair', sd, tid)
+    a, ea = new_events(f'{tid}A', d, v)
+    b, eb = new_events(f'{tid}B', d, v)
+    eva, evb = [ea], [eb]
+    k = r.randrange(0, len(h) + 1)
+    for i in range(len(h) + 6):
+        if i < len(h) and not a.has_done():
+            eva.append(step_event(f'{tid}A', a, h[i]))
+        if not b.has_done():
+            if i < k and i < len(h):
+                c = h[i]
+            else:
+                av = [j for j, x in enumerate(b.available_bid) if x == 1]
+                if not av:
+                    break
+                others = [x for x in av if x >= 36]
+                c = r.choice(others) if others and r.random() < 0.6 else \
+                    (PASS if r.random() < 0.5 else r.choice(av[:4]))
+            evb.append(step_event(f'{tid}B', b, c))
+            # what B did must not show in A (and vice versa): A is projected again
+            if not a.has_done() and r.random() < 0.5:
+                off = [j for j in range(38) if a.available_bid[j] != 1]
+                if off:
+                    eva.append(step_event(f'{tid}A', a, r.choice(off)))
+    return eva + evb
+
+
 def _trace_job(job):
     kind, tid, d, v, h = job
+    if kind == 'pair':
+        return pair_trace(tid, d, v, h, seed())
     if kind == 'walk':
         return history_trace(tid, d, v, h, offer_all_at_end=True)
     if isinstance(kind, tuple):      # ('walk', offered calls)
@@ -369,6 +403,10 @@ def run(pid: str, tier: str) -> int:
         d, v, h = random_history(r, styles[k % len(styles)])
         jobs.append(('prefix' if (pid == 'C01' or k % 3 == 0) else 'plain',
                      f'r{k}', d, v, h))
+    # auctions alive at the same time
+    for k in range(60 if quick else 3000):
+        d, v, h = random_history(r, styles[k % len(styles)])
+        jobs.append(('pair', f'p{k}', d, v, h))
     for d in range(4):
         jobs.append(('prefix' if pid == 'C01' else 'plain', f'long{d}', d,
                      (d + sd) % 4, longest_auction(d)))
